@@ -105,10 +105,16 @@ func (t *TransactionManager) GetTransaction(id string) (*Transaction, error) {
 	return t.transaction, nil
 }
 
+// Rollback rolls the given transaction back on expiry of its rollback timer.
 func (t *TransactionManager) Rollback(ctx context.Context, trans *Transaction) error {
 	t.tmMutex.Lock()
 	defer t.tmMutex.Unlock()
-	_, err := t.rollbacker.TransactionRollback(ctx, trans, false)
+	// the transaction may have been confirmed or cancelled while the timer was firing,
+	// then there is nothing left to roll back
+	if t.transaction != trans {
+		return nil
+	}
+	_, err := t.rollbacker.TransactionRollback(ctx, trans.GetRollbackTransaction(), false)
 
 	t.transaction = nil
 
